@@ -108,6 +108,11 @@ def hints_phase(c, tier, cases_path=None, corrupt=0):
     vlib.tlc_expect_violation("MC_Hints", cfg="MC_Hints_nv", workers=4)
     vlib.tlc_expect_violation("MC_Hints", cfg="MC_Hints_expr_nv", workers=4)
     vlib.tlc_expect_violation("MC_Hints", cfg="MC_Hints_r21", workers=4)      # the date-range hint of the tree before R21 is refuted
+    # the spill test shortened to rules "with a span passing midnight": refuted when the test is written end < start (the 24-hour
+    # span 10:00-10:00 is forgotten - seeded change C02-7); sound when written like the evaluator's wrap condition (thorough tier)
+    vlib.tlc_expect_violation("MC_Hints", cfg="MC_Hints_expr_lt", workers=4)
+    if tier == "thorough":
+        vlib.tlc_ok("MC_Hints", cfg="MC_Hints_expr_le", workers=8, heap="6g")
     t0 = time.time()
     n, procs = (400, 8) if tier == "quick" else (12000, 16)
     sample = None
